@@ -27,7 +27,7 @@ ASSUMPTIONS = [
     "departures with S > 2 are the recorded known finding (rounding amplified by an unstable explicit step), departures with S <= 2 are violations",
 ]
 TOLERANCES = {"quiet": 1e-9}
-GU = [(10.0, 5.79), (0.0, 1.0), (0.0, 5.79), (1.0, 1.0), (100.0, 0.5)]
+GU = [(10.0, 5.79), (0.0, 1.0), (0.0, 5.79), (1.0, 1.0), (100.0, 0.5), (1e-4, 5.79), (1e-3, 1.0), (3e-2, 5.79)]
 
 
 def bound(tier):
